@@ -335,7 +335,9 @@ Section WsProofs.
       destruct (io_read (N.min maxb (sz - blen got)) scr pipe) as [[x p1] s1] eqn:Er.
       apply io_read_spec in Er. destruct Er as (Hp & Hb & _).
       destruct (0 <? blen x) eqn:Ex; [|apply (Hnone x p1); auto; lia].
-      fold (with_pay st sz (got ++ x)) in H. cbv zeta in H.
+      cbv zeta in H.
+      set (st1 := mkWR _ _ (Some (sz, got ++ x)) _ _ _ _ _ _) in H.
+      assert (Est1 : st1 = with_pay st sz (got ++ x)) by reflexivity. clearbody st1. subst st1.
       assert (Hxne : x <> []) by (intros ->; cbn in Ex; discriminate).
       destruct (blen got + blen x =? sz) eqn:Efull.
       + destruct (wr_payload_done client (with_pay st sz (got ++ x))) as [st2 o] eqn:Epd.
@@ -367,5 +369,292 @@ Section WsProofs.
     unfold WsModel.wr_do_input. intros Hwf H.
     destruct (wr_in_spec client scr _ _ _ _ _ _ _ Hwf H) as (Hwf' & x & o' & Hp & Ho & Hf & Hx).
     cbn in Ho. subst o'. eauto.
+  Qed.
+
+  (* ==================================================================== sender *)
+  Variable client : bool.          (* the SENDER is the client (masks) or the server *)
+
+  (* frames of the queued Messages, drawing keys from the key list (client only) *)
+  Fixpoint ws_wire_from (keys : list bytes) (ms : list Msg) : bytes :=
+    match ms with
+    | [] => []
+    | m :: t =>
+        let key := match keys with k :: _ => k | [] => [0; 0; 0; 0] end in
+        let keys' := if client then match keys with _ :: r => r | [] => [] end else keys in
+        ws_frame client key WS_BINARY (sflat m) ++ ws_wire_from keys' t
+    end.
+  Fixpoint ws_keys_after (keys : list bytes) (ms : list Msg) : list bytes :=
+    match ms with
+    | [] => keys
+    | _ :: t => ws_keys_after (if client then match keys with _ :: r => r | [] => [] end else keys) t
+    end.
+
+  Lemma ws_wire_from_app keys a b :
+    ws_wire_from keys (a ++ b) = ws_wire_from keys a ++ ws_wire_from (ws_keys_after keys a) b.
+  Proof. revert keys. induction a as [|m a IH]; intros keys; cbn; auto. now rewrite IH, app_assoc. Qed.
+
+  Lemma ws_keys_after_app keys a b : ws_keys_after keys (a ++ b) = ws_keys_after (ws_keys_after keys a) b.
+  Proof. revert keys. induction a as [|m a IH]; intros keys; cbn; auto. Qed.
+
+  Variable keys0 : list bytes.
+
+  Definition ws_rem (st : wsend) : bytes := drop (ws_off st) (ws_buf st) ++ ws_wire_from (ws_keys st) (ws_q st).
+  Definition ws_SI (st : wsend) (ms : list Msg) : Prop :=
+    ws_off st <= blen (ws_buf st) /\
+    exists dn, ms = dn ++ ws_q st /\ ws_keys st = ws_keys_after keys0 dn.
+
+  Lemma ws_frame_nonempty c key op d : ws_frame c key op d <> [].
+  Proof. unfold ws_frame. discriminate. Qed.
+
+  Lemma ws_out_spec ms fuel : forall st maxb scr acc st' acc',
+    ws_SI st ms -> ws_out Msg sflat client fuel st maxb scr acc = (st', acc') ->
+    ws_SI st' ms /\ exists x, acc' = acc ++ x /\ ws_rem st = x ++ ws_rem st'.
+  Proof.
+    induction fuel as [|fuel IH]; intros st maxb scr acc st' acc' HSI H; cbn [ws_out] in H.
+    { inversion H; subst. split; auto. exists []. now rewrite app_nil_r. }
+    destruct (maxb =? 0); [inversion H; subst; split; auto; exists []; now rewrite app_nil_r|].
+    destruct HSI as [Hoff (dn & Hms & Hk)].
+    destruct (ws_off st <? blen (ws_buf st)) eqn:Elt.
+    - destruct (io_write (take (N.min (blen (ws_buf st) - ws_off st) maxb) (drop (ws_off st) (ws_buf st))) scr) as [x scr'] eqn:Ew.
+      apply io_write_take in Ew. destruct Ew as (Hd & Hbx & _). rewrite blen_drop in Hbx.
+      destruct (0 <? blen x) eqn:Ex.
+      + apply IH in H.
+        * destruct H as (HSI' & y & Hacc & Hrem). split; auto. exists (x ++ y).
+          split; [now rewrite Hacc, app_assoc|]. rewrite <- app_assoc, <- Hrem.
+          unfold ws_rem. cbn [ws_off ws_buf ws_keys ws_q]. rewrite Hd at 1. rewrite drop_drop, <- app_assoc. reflexivity.
+        * split; [cbn [ws_off ws_buf]; lia|]. exists dn. auto.
+      + inversion H; subst. split; [split; [auto|exists dn; auto]|]. exists []. now rewrite app_nil_r.
+    - destruct (ws_q st) as [|m q] eqn:Eq.
+      + inversion H; subst. split; [split; [auto|exists dn; rewrite Eq; auto]|]. exists []. now rewrite app_nil_r.
+      + apply IH in H.
+        * destruct H as (HSI' & y & Hacc & Hrem). split; auto. exists y. split; auto. rewrite <- Hrem.
+          unfold ws_rem. cbn [ws_off ws_buf ws_keys ws_q]. rewrite Eq. cbn [ws_wire_from].
+          rewrite drop_all by lia. rewrite drop_0. reflexivity.
+        * split; [cbn [ws_off ws_buf]; lia|]. exists (dn ++ [m]). cbn [ws_q ws_keys]. split.
+          -- rewrite Hms, <- app_assoc. reflexivity.
+          -- rewrite ws_keys_after_app, <- Hk. reflexivity.
+  Qed.
+
+  Lemma ws_do_output_spec ms st maxb scr st' x :
+    ws_SI st ms -> ws_do_output Msg sflat client st maxb scr = (st', x) ->
+    ws_SI st' ms /\ ws_rem st = x ++ ws_rem st'.
+  Proof.
+    unfold ws_do_output. intros HSI H.
+    destruct (ws_out_spec ms _ _ _ _ _ _ _ HSI H) as (HSI' & y & Hy & Hrem). cbn in Hy. subst y. auto.
+  Qed.
+
+  (* a productive call writes at least one byte while bytes remain *)
+  Lemma ws_out_progress ms fuel : forall st maxb scr acc st' acc',
+    ws_SI st ms -> (length (ws_q st) < fuel)%nat -> ws_rem st <> [] -> 1 <= maxb -> 1 <= io_k scr ->
+    ws_out Msg sflat client fuel st maxb scr acc = (st', acc') -> (length acc < length acc')%nat.
+  Proof.
+    induction fuel as [|fuel IH]; intros st maxb scr acc st' acc' HSI Hf Hrem Hm Hk H; [lia|].
+    cbn [ws_out] in H.
+    assert (E0 : (maxb =? 0) = false) by lia. rewrite E0 in H.
+    destruct HSI as [Hoff (dn & Hms & Hkeys)].
+    destruct (ws_off st <? blen (ws_buf st)) eqn:Elt.
+    - destruct (io_write (take (N.min (blen (ws_buf st) - ws_off st) maxb) (drop (ws_off st) (ws_buf st))) scr) as [x scr'] eqn:Ew.
+      apply io_write_take in Ew. destruct Ew as (Hd & Hbx & _). rewrite blen_drop in Hbx.
+      assert (Hx : 0 < blen x) by lia. assert (Ex : (0 <? blen x) = true) by lia. rewrite Ex in H.
+      apply (ws_out_spec ms) in H.
+      + destruct H as (_ & y & -> & _). rewrite !app_length. unfold blen in Hx. lia.
+      + split; [cbn [ws_off ws_buf]; lia|]. exists dn. auto.
+    - destruct (ws_q st) as [|m q] eqn:Eq.
+      + exfalso. apply Hrem. unfold ws_rem. rewrite Eq. cbn [ws_wire_from]. rewrite drop_all by lia. reflexivity.
+      + apply IH in H; auto.
+        * split; [cbn [ws_off ws_buf]; lia|]. exists (dn ++ [m]). cbn [ws_q ws_keys]. split.
+          -- rewrite Hms, <- app_assoc. reflexivity.
+          -- rewrite ws_keys_after_app, <- Hkeys. reflexivity.
+        * cbn [ws_q]. cbn in Hf. lia.
+        * unfold ws_rem. cbn [ws_off ws_buf]. rewrite drop_0. intros E. apply app_eq_nil in E. destruct E as [E _].
+          exact (ws_frame_nonempty _ _ _ _ E).
+  Qed.
+
+  Lemma ws_do_output_progress ms st maxb scr st' x :
+    ws_SI st ms -> ws_rem st <> [] -> 1 <= maxb -> 1 <= io_k scr ->
+    ws_do_output Msg sflat client st maxb scr = (st', x) -> x <> [].
+  Proof.
+    unfold ws_do_output. intros HSI Hrem Hm Hk H.
+    eapply ws_out_progress in H; eauto; [|lia]. intros ->. cbn in H. lia.
+  Qed.
+
+  (* ==================================================================== parsing a frame the sender built *)
+  Definition ws_idle (mask : bytes) (sl : SR) : wrecv := mkWR [] 2 None 0 mask 0 false false sl.
+
+  Lemma rdbe_be16 n : n < 65536 -> rdbe (be16 n) 0 = n.
+  Proof.
+    intros H. unfold be16. cbn [rdbe].
+    pose proof (N.div_mod n 256 ltac:(lia)) as Hd.
+    assert (n / 256 < 256) by (apply N.div_lt_upper_bound; lia).
+    rewrite (N.mod_small (n / 256) 256) by lia. lia.
+  Qed.
+
+  Lemma rdbe_be32 n acc : n < two32 -> rdbe (be32 n) acc = acc * two32 + n.
+  Proof.
+    intros H. unfold be32. cbn [rdbe].
+    assert (E : n mod 256 + 256 * ((n / 256) mod 256) + 65536 * ((n / 65536) mod 256) + 16777216 * ((n / 16777216) mod 256) = n).
+    { pose proof (rd32_le32 n [] H) as Hr. unfold le32, rd32, u32 in Hr. cbn [app] in Hr.
+      rewrite N.mod_small in Hr; [exact Hr|].
+      assert (Hm : forall a, a mod 256 < 256) by (intros; apply N.mod_lt; lia).
+      pose proof (Hm n). pose proof (Hm (n / 256)). pose proof (Hm (n / 65536)). pose proof (Hm (n / 16777216)).
+      unfold two32. lia. }
+    unfold two32 in *. lia.
+  Qed.
+
+  Lemma rdbe_be64 n : n < two32 -> rdbe (be64 n) 0 = n.
+  Proof.
+    intros H. unfold be64.
+    assert (E1 : n / two32 = 0) by (apply N.div_small; exact H).
+    assert (E2 : n mod two32 = n) by (apply N.mod_small; exact H).
+    rewrite E1, E2.
+    assert (rdbe (be32 0 ++ be32 n) 0 = rdbe (be32 n) (rdbe (be32 0) 0)).
+    { generalize (be32 n) as t. generalize 0 as a. induction (be32 0) as [|x l IH]; intros a t; cbn [rdbe app]; auto. }
+    rewrite H0. rewrite rdbe_be32 by exact H. rewrite (rdbe_be32 0 0) by (unfold two32; lia). lia.
+  Qed.
+
+  Lemma ws_parse_frame key data (sl sl' : SR) (outs : list Msg) m0 :
+    data <> [] -> blen data <= ws_max_payload -> (client = true -> length key = 4%nat) ->
+    sfeed sl data = (sl', outs) ->
+    wr_feed (negb client) (ws_idle m0 sl) (ws_frame client key WS_BINARY data)
+    = (ws_idle (if client then key else [0; 0; 0; 0]) sl', outs).
+  Proof.
+    intros Hne Hmax Hkey Hs.
+    assert (Hn1 : 1 <= blen data) by (pose proof (blen_pos _ Hne); lia).
+    assert (Hmp : ws_max_payload = 10485760) by reflexivity.
+    set (n := blen data) in *.
+    set (mb := if client then 128 else 0).
+    unfold ws_frame. fold n. fold mb.
+    change (WS_FIN + WS_BINARY) with 130.
+    (* the length class *)
+    set (code := if 65535 <? n then 127 else if 125 <? n then 126 else n).
+    set (ext := if 65535 <? n then be64 n else if 125 <? n then be16 n else []).
+    assert (Elen : (if 65535 <? n then [mb + 127] ++ be64 n else if 125 <? n then [mb + 126] ++ be16 n else [mb + n]) = [mb + code] ++ ext).
+    { subst code ext. destruct (65535 <? n); [reflexivity|]. destruct (125 <? n); reflexivity. }
+    rewrite Elen. clear Elen.
+    assert (Hcode : code < 128) by (subst code; destruct (65535 <? n) eqn:E1; [lia|destruct (125 <? n) eqn:E2; lia]).
+    assert (Hext : blen ext = if code =? 126 then 2 else if code =? 127 then 8 else 0).
+    { subst code ext. destruct (65535 <? n) eqn:E1; [reflexivity|]. destruct (125 <? n) eqn:E2; [reflexivity|].
+      assert ((n =? 126) = false) by lia. assert ((n =? 127) = false) by lia. rewrite H, H0. reflexivity. }
+    (* first two header bytes *)
+    assert (Hmbit : (128 <=? mb + code) = client) by (subst mb; destruct client; lia).
+    assert (Hl7 : (mb + code) mod 128 = code).
+    { subst mb. destruct client; [|rewrite N.add_0_l; apply N.mod_small; exact Hcode].
+      rewrite N.add_mod by lia. rewrite N.mod_same by lia. rewrite N.add_0_l, N.mod_mod by lia. apply N.mod_small; exact Hcode. }
+    set (hs' := 2 + (if code =? 126 then 2 else if code =? 127 then 8 else 0) + (if client then 4 else 0)).
+    assert (Hstep1 : forall rest, wr_feed (negb client) (ws_idle m0 sl) (130 :: (mb + code) :: rest) =
+               let '(st1, o1) := wr_header_done (negb client) (mkWR [130; mb + code] 2 None 0 m0 0 false false sl) in
+               let '(st2, o2) := wr_feed (negb client) st1 rest in (st2, o1 ++ o2)).
+    { intros rest. change (130 :: (mb + code) :: rest) with ([130; mb + code] ++ rest). rewrite wr_feed_app.
+      rewrite (feed_hdr_exact (negb client) [130; mb + code] (ws_idle m0 sl) eq_refl ltac:(discriminate) eq_refl). reflexivity. }
+    assert (Hhd2 : wr_header_done (negb client) (mkWR [130; mb + code] 2 None 0 m0 0 false false sl) =
+                   if hs' =? 2 then (mkWR [130; mb + code] 2 (Some (n, [])) 0 [0; 0; 0; 0] 2 false false sl, [])
+                   else (mkWR [130; mb + code] hs' None 0 m0 0 false false sl, [])).
+    { unfold WsModel.wr_header_done. cbn [wr_hdr wr_hsize nth]. change (2 =? 2) with true. cbv iota.
+      change ((130 / 16) mod 8 =? 0) with true. cbn [negb]. rewrite Hmbit, Hl7.
+      assert (Erole : (if negb client then client else negb client) = false) by (destruct client; reflexivity).
+      rewrite Erole. fold hs'.
+      destruct (hs' =? 2) eqn:Ehs; [|reflexivity].
+      (* no extension, no mask: the payload size is the 7-bit code itself *)
+      assert (Hc : code = n).
+      { subst hs' code. destruct (65535 <? n); [cbn in Ehs; destruct client; discriminate|].
+        destruct (125 <? n); [cbn in Ehs; destruct client; discriminate|reflexivity]. }
+      rewrite Hc. unfold wr_init_payload. cbn [wr_hdr wr_pay nth].
+      assert (E0 : (n =? 0) = false) by lia. rewrite E0. reflexivity. }
+    cbn [app]. rewrite Hstep1, Hhd2. clear Hstep1 Hhd2.
+    (* the payload phase, from a state whose header is complete *)
+    assert (Hpay : forall hdr hsz mask pdata, blen hdr = hsz -> nth 0 hdr 0 = 130 ->
+               (if client then ws_xor mask 0 pdata = data else pdata = data) -> blen pdata = n ->
+               wr_feed (negb client) (mkWR hdr hsz (Some (n, [])) 0 mask 2 false false sl) pdata = (ws_idle mask sl', outs)).
+    { intros hdr hsz mask pdata Hh H0 Hpd Hpl.
+      assert (Hpne : pdata <> []) by (intros ->; change (blen []) with 0 in Hpl; lia).
+      assert (Hsum : blen (@nil N) + blen pdata = n) by (change (blen []) with 0; lia).
+      rewrite (feed_pay_exact (negb client) pdata (mkWR hdr hsz (Some (n, [])) 0 mask 2 false false sl) n [] eq_refl Hh eq_refl Hpne Hsum).
+      unfold WsModel.wr_payload_done, with_pay. cbn [wr_pay wr_hdr wr_hsize wr_first wr_mask wr_op wr_closed wr_err wr_slave app].
+      rewrite H0. change (WS_FIN <=? 130) with true.
+      destruct client; cbn [negb].
+      - cbn [wr_closed orb]. unfold wr_execute. cbn [wr_pay wr_closed wr_op wr_slave wr_hdr wr_hsize wr_mask wr_err].
+        change (2 =? WS_BINARY) with true. cbv iota. cbn [take drop firstn skipn N.to_nat app].
+        rewrite Hpd, Hs. reflexivity.
+      - cbn [wr_closed orb]. unfold wr_execute. cbn [wr_pay wr_closed wr_op wr_slave wr_hdr wr_hsize wr_mask wr_err].
+        change (2 =? WS_BINARY) with true. cbv iota. rewrite Hpd, Hs. reflexivity. }
+    destruct (hs' =? 2) eqn:Ehs.
+    - (* server -> client, short payload: straight to the payload *)
+      assert (Hcl : client = false) by (subst hs'; destruct client; auto; destruct (code =? 126); [discriminate|destruct (code =? 127); discriminate]).
+      assert (Hext0 : ext = []).
+      { apply blen_0. rewrite Hext. subst hs'. rewrite Hcl in Ehs. destruct (code =? 126); [discriminate|]. destruct (code =? 127); [discriminate|reflexivity]. }
+      rewrite Hext0, Hcl in *. cbn [app].
+      rewrite (Hpay [130; mb + code] 2 [0; 0; 0; 0] data eq_refl eq_refl eq_refl eq_refl). reflexivity.
+    - (* more header bytes: extended length and / or masking key *)
+      set (hrest := ext ++ (if client then ws_key_wire key else [])).
+      set (pdata := if client then ws_xor key 0 data else data).
+      assert (Esplit : ext ++ (if client then ws_key_wire key ++ ws_xor key 0 data else data) = hrest ++ pdata).
+      { subst hrest pdata. destruct client; [now rewrite <- app_assoc|now rewrite app_nil_r]. }
+      rewrite Esplit. clear Esplit.
+      assert (Hklen : client = true -> blen (ws_key_wire key) = 4) by (intros Hc; unfold blen, ws_key_wire; rewrite (Hkey Hc); reflexivity).
+      assert (Hrl : 2 + blen hrest = hs').
+      { subst hrest hs'. rewrite blen_app, Hext. destruct client; [rewrite (Hklen eq_refl)|change (blen []) with 0]; lia. }
+      assert (Hrne : hrest <> []).
+      { intros E. rewrite E in Hrl. change (blen []) with 0 in Hrl. lia. }
+      rewrite wr_feed_app.
+      rewrite (feed_hdr_exact (negb client) hrest (mkWR [130; mb + code] hs' None 0 m0 0 false false sl) eq_refl Hrne Hrl).
+      unfold with_hdr. cbn [wr_hdr wr_hsize wr_pay wr_first wr_mask wr_op wr_closed wr_err wr_slave].
+      (* the second header-complete step: payload size and mask *)
+      assert (Hhd : wr_header_done (negb client) (mkWR ([130; mb + code] ++ hrest) hs' None 0 m0 0 false false sl) =
+                    (mkWR ([130; mb + code] ++ hrest) hs' (Some (n, [])) 0 (if client then key else [0; 0; 0; 0]) 2 false false sl, [])).
+      { unfold WsModel.wr_header_done. cbn [wr_hdr wr_hsize app nth]. rewrite Ehs, Hmbit, Hl7.
+        assert (Hinit : forall off, (client = true -> take 4 (drop off ([130; mb + code] ++ hrest)) = key) ->
+                   wr_init_payload Msg SR sfeed (mkWR ([130; mb + code] ++ hrest) hs' None 0 m0 0 false false sl) n (if client then Some off else None)
+                   = (mkWR ([130; mb + code] ++ hrest) hs' (Some (n, [])) 0 (if client then key else [0; 0; 0; 0]) 2 false false sl, [])).
+        { intros off Hoff. unfold wr_init_payload. cbn [wr_hdr wr_pay wr_hsize wr_first wr_mask wr_op wr_closed wr_err wr_slave app nth].
+          assert (E0 : (n =? 0) = false) by lia. rewrite E0.
+          destruct client; [rewrite (Hoff eq_refl)|]; reflexivity. }
+        (* which length class *)
+        subst hs' hrest code ext.
+        destruct (65535 <? n) eqn:E1.
+        - (* 64-bit length *)
+          change (127 =? 126) with false. change (127 =? 127) with true. cbv iota.
+          assert (Hsz : rdbe (take 8 (drop 2 ([130; mb + 127] ++ be64 n ++ (if client then ws_key_wire key else [])))) 0 = n).
+          { change (drop 2 ([130; mb + 127] ++ be64 n ++ (if client then ws_key_wire key else []))) with (be64 n ++ (if client then ws_key_wire key else [])).
+            change 8 with (blen (be64 n)). rewrite take_app_exact. apply rdbe_be64. unfold two32. lia. }
+          destruct client; cbn [negb].
+          + change (2 + 8 + 4 =? 2) with false. change (2 + 8 + 4 =? 6) with false.
+            change ((2 + 8 + 4 =? 4) || (2 + 8 + 4 =? 8)) with false. change ((2 + 8 + 4 =? 10) || (2 + 8 + 4 =? 14)) with true. cbv iota.
+            rewrite Hsz. assert (Ea : (9223372036854775808 <=? n) = false) by lia. assert (Eb : (ws_max_payload <? n) = false) by lia.
+            rewrite Ea, Eb. unfold u32. rewrite N.mod_small by (unfold two32; lia).
+            apply (Hinit 10). intros _. change (drop 10 ([130; mb + 127] ++ be64 n ++ ws_key_wire key)) with (ws_key_wire key).
+            apply take_all. rewrite (Hklen eq_refl). lia.
+          + change (2 + 8 + 0 =? 2) with false. change (2 + 8 + 0 =? 6) with false.
+            change ((2 + 8 + 0 =? 4) || (2 + 8 + 0 =? 8)) with false. change ((2 + 8 + 0 =? 10) || (2 + 8 + 0 =? 14)) with true. cbv iota.
+            rewrite Hsz. assert (Ea : (9223372036854775808 <=? n) = false) by lia. assert (Eb : (ws_max_payload <? n) = false) by lia.
+            rewrite Ea, Eb. unfold u32. rewrite N.mod_small by (unfold two32; lia).
+            apply (Hinit 0). discriminate.
+        - destruct (125 <? n) eqn:E2.
+          + (* 16-bit length *)
+            change (126 =? 126) with true. cbv iota.
+            assert (Hsz : rdbe (take 2 (drop 2 ([130; mb + 126] ++ be16 n ++ (if client then ws_key_wire key else [])))) 0 = n).
+            { change (drop 2 ([130; mb + 126] ++ be16 n ++ (if client then ws_key_wire key else []))) with (be16 n ++ (if client then ws_key_wire key else [])).
+              change 2 with (blen (be16 n)) at 1. rewrite take_app_exact. apply rdbe_be16. lia. }
+            destruct client; cbn [negb].
+            * change (2 + 2 + 4 =? 2) with false. change (2 + 2 + 4 =? 6) with false.
+              change ((2 + 2 + 4 =? 4) || (2 + 2 + 4 =? 8)) with true. cbv iota. rewrite Hsz.
+              apply (Hinit 4). intros _. change (drop 4 ([130; mb + 126] ++ be16 n ++ ws_key_wire key)) with (ws_key_wire key).
+              apply take_all. rewrite (Hklen eq_refl). lia.
+            * change (2 + 2 + 0 =? 2) with false. change (2 + 2 + 0 =? 6) with false.
+              change ((2 + 2 + 0 =? 4) || (2 + 2 + 0 =? 8)) with true. cbv iota. rewrite Hsz.
+              apply (Hinit 0). discriminate.
+          + (* 7-bit length with a mask (the unmasked 7-bit case has hs' = 2) *)
+            assert (En126 : (n =? 126) = false) by lia. assert (En127 : (n =? 127) = false) by lia.
+            rewrite En126, En127 in *. cbv iota in *.
+            destruct client; cbn [negb]; [|cbn in Ehs; discriminate].
+            change (2 + 0 + 4 =? 2) with false. change (2 + 0 + 4 =? 6) with true. cbv iota.
+            apply (Hinit 2). intros _. cbn [app]. change (drop 2 ([130; mb + n] ++ ws_key_wire key)) with (ws_key_wire key).
+            apply take_all. rewrite (Hklen eq_refl). lia. }
+      rewrite Hhd. clear Hhd.
+      rewrite (Hpay ([130; mb + code] ++ hrest) hs' (if client then key else [0; 0; 0; 0]) pdata).
+      + reflexivity.
+      + rewrite blen_app. change (blen [130; mb + code]) with 2. exact Hrl.
+      + reflexivity.
+      + subst pdata. destruct client; [apply ws_xor_involutive|reflexivity].
+      + subst pdata. destruct client; [apply blen_ws_xor|reflexivity].
   Qed.
 End WsProofs.
